@@ -292,6 +292,19 @@ add(property='C12', id='C12-paraxial-trace-nan', status='fixed', commit='0f36894
          '1: PupilAberration returned NaN for every lens with the stop on the first surface',
     reproducer=_c12('pupil_aberration', n=1))
 
+_c14_spec = spec([surf(R=40.0, t=5.0, mat=glass(1.6), stop=True), surf(R=-60.0, t=47.0)], ap=('EPD', 8.0), fields=(0.0, 3.0))
+add(property='C14', id='C14-result-not-applied', status='fixed', commit='eecaabf', clause='lens_is_at_returned_solution',
+    what='fixed: property=C14 eecaabf optimizers returned without applying result.x (dual annealing left the lens at an '
+         'arbitrary trial point; multi-process differential evolution never touched the lens)',
+    reproducer={'spec': _c14_spec, 'operands': [{'type': 'f2', 'rel': 1.2, 'weight': 1.0, 'a': 0, 'h': 0.0}],
+                'variables': [{'type': 'radius', 's': 0, 'scaled': True, 'bounded': True, 'axis': 'x'}],
+                'opt': 'dual_annealing', 'pickup': False, 'second': 'generic'})
+add(property='C14', id='C14-unscaled-bounds', status='fixed', commit='1591c67', clause='bounds_in_units_of_value',
+    what='fixed: property=C14 1591c67 Variable.bounds scaled min/max although apply_scaling=False',
+    reproducer={'spec': _c14_spec, 'operands': [{'type': 'f2', 'rel': 1.1, 'weight': 1.0, 'a': 0, 'h': 0.0}],
+                'variables': [{'type': 'radius', 's': 0, 'scaled': False, 'bounded': True, 'axis': 'x'}],
+                'opt': 'generic', 'pickup': False, 'second': 'generic'})
+
 for _e in F:
     if _e['id'] == 'C13-caller-arrays':
         _e['reproducer']['spec']['fields'][1].update(vx=0.2, vy=0.3)
